@@ -148,16 +148,17 @@ def N2_mark_before_rewind(ctx):
                 continue
             n_rw += 1
             before = p.events[:i]
-            marks = [x for x in before if is_call(x, 'Scheduler::<DB>::mark_mv_estimate')
-                     and len(x.d['args']) == 3 and mentions_field(x.d['args'][2], 'TransactionResult.write_set')]
+            marks = [x for x in estimate_mark_calls(ctx.facts, p) if idx_of(p, x) < i
+                     and any(mentions_field(a_, 'TransactionResult.write_set') for a_ in x.d['args'])]
             inv = [x for x in before if is_call(x, 'Beneficiary::invalidate')]
             if not marks:
                 missing.append((e, 'mark_mv_estimate(own write set)'))
             if not inv:
                 missing.append((e, 'Beneficiary::invalidate(own version)'))
             after = p.events[i + 1:]
+            late_marks = [x for x in estimate_mark_calls(ctx.facts, p) if idx_of(p, x) > i]
             for x in after:
-                if is_call(x, ('Scheduler::<DB>::mark_mv_estimate', 'Beneficiary::invalidate')):
+                if is_call(x, 'Beneficiary::invalidate') or any(x is m_ for m_ in late_marks):
                     order.append((e, x))
     ctx.count('N2.rewind-sites', n_rw)
     ctx.ob('N2', f, 'anchor:rewind-in-validate', n_rw >= 1, 'no rewind_validation_to call on any path of validate', site=f.loc(f.b['lo']))
@@ -1036,7 +1037,7 @@ def L8_worker_loop(ctx):
     f = sched(ctx, 'run_worker')
     bad = []
     n = 0
-    for p in feasible(f.paths()):
+    for p in feasible(f.paths(max_visits=5)):
         ev = p.events
         for i, e in enumerate(ev):
             if e.kind == 'call' and (is_call(e, 'Scheduler::execute_task') or is_call(e, 'Scheduler::validate')):
